@@ -3,6 +3,7 @@ package main
 import (
 	"fmt"
 	"go/token"
+	"go/types"
 	"sort"
 	"strings"
 
@@ -25,14 +26,175 @@ func (a admitRow) String() string {
 	return fmt.Sprintf("running=%d concurrency=%d start_delay=%d ignoreDelay=%v queue_limit=%s strategy=%d waiting=%d", a.count, a.conc, a.delay, a.ignore == 1, limStr(a.limitNil, a.limit), a.strategy, a.length)
 }
 
-func (ro *Roles) admitVars() map[string]string {
-	cnt := FuncName(ro.Count) + "(recv,arg0)"
-	d := "recv.defs.Pipelines[arg0]."
-	return map[string]string{
-		cnt: "count", d + "Concurrency": "conc", d + "StartDelay": "delay", "arg1": "ignore",
-		d + "QueueLimit": "limitptr", "*" + d + "QueueLimit": "limit", d + "QueueStrategy": "strategy",
-		"len(recv.waitListByPipeline[arg0])": "len",
+// countHost: the function that holds the counting loop — the counting function, or the
+// admission function itself when the loop was inlined into it — and the access path of the
+// list it ranges over in that function's terms.
+func (ro *Roles) countHost() (fn *ssa.Function, list string) {
+	if ro.Count != nil {
+		fn = ro.Count
+		for i, p := range fn.Params {
+			if strings.HasPrefix(shapeString(p.Type()), "[]") && strings.HasSuffix(shapeString(p.Type()), "PipelineJob") {
+				idx := i
+				if fn.Signature.Recv() != nil {
+					idx = i - 1
+				}
+				return fn, fmt.Sprintf("arg%d", idx)
+			}
+		}
+		return fn, "recv.jobsByPipeline[arg0]"
 	}
+	if ro.Admit != nil {
+		return ro.Admit, "recv.jobsByPipeline[" + ro.admitPipelineArg() + "]"
+	}
+	return nil, ""
+}
+
+// admitPipelineArg: the access path of the admission function's pipeline-name parameter.
+func (ro *Roles) admitPipelineArg() string {
+	if ro.Admit == nil {
+		return "arg0"
+	}
+	for i, p := range ro.Admit.Params {
+		if p.Type().String() == "string" {
+			if ro.Admit.Signature.Recv() != nil {
+				return fmt.Sprintf("arg%d", i-1)
+			}
+			return fmt.Sprintf("arg%d", i)
+		}
+	}
+	return "arg0"
+}
+
+// admitVars maps the access paths that occur in the admission function's literals to the
+// inputs of the decision table. The paths are classified by what they are — a field of the
+// pipeline's definition (looked up by the pipeline argument or received as a parameter), the
+// length of the pipeline's wait list, the running count (call of the counting function or the
+// counter of an inlined counting loop), the ignore-delay parameter — not by a fixed spelling.
+func (ro *Roles) admitVars(paths []*Path) (map[string]string, string) {
+	w := ro.w
+	vars := map[string]string{}
+	P := ro.admitPipelineArg()
+	defBases := map[string]bool{}
+	classify := func(s string) {
+		if s == "" || vars[s] != "" {
+			return
+		}
+		base := func(suffix string) {
+			defBases[strings.TrimPrefix(strings.TrimSuffix(s, suffix), "*")] = true
+		}
+		switch {
+		case strings.HasSuffix(s, ".Concurrency"):
+			vars[s] = "conc"
+			base(".Concurrency")
+		case strings.HasSuffix(s, ".StartDelay"):
+			vars[s] = "delay"
+			base(".StartDelay")
+		case strings.HasSuffix(s, ".QueueLimit") && strings.HasPrefix(s, "*"):
+			vars[s] = "limit"
+			base(".QueueLimit")
+		case strings.HasSuffix(s, ".QueueLimit"):
+			vars[s] = "limitptr"
+			base(".QueueLimit")
+		case strings.HasSuffix(s, ".QueueStrategy"):
+			vars[s] = "strategy"
+			base(".QueueStrategy")
+		case s == "len(recv."+waitListField+"["+P+"])":
+			vars[s] = "len"
+		case ro.Count != nil && strings.HasPrefix(s, FuncName(ro.Count)+"("):
+			args := strings.TrimSuffix(strings.TrimPrefix(s, FuncName(ro.Count)+"("), ")")
+			if args == "recv,"+P || args == "recv.jobsByPipeline["+P+"]" || args == "recv,recv.jobsByPipeline["+P+"]" {
+				vars[s] = "count"
+			}
+		}
+	}
+	for _, p := range paths {
+		for _, l := range p.Lits {
+			classify(l.Atom.L)
+			classify(l.Atom.R)
+		}
+	}
+	// the ignore-delay parameter: the admission function's bool (or named bool) parameter
+	for i, p := range ro.Admit.Params {
+		if b, ok := p.Type().Underlying().(*types.Basic); ok && b.Kind() == types.Bool {
+			idx := i
+			if ro.Admit.Signature.Recv() != nil {
+				idx = i - 1
+			}
+			vars[fmt.Sprintf("arg%d", idx)] = "ignore"
+		}
+	}
+	// the counter of an inlined counting loop; the list's length is at least the count
+	if ro.Count == nil {
+		if ph := ro.inlinedCounter(); ph != nil {
+			vars[w.AP(ph)] = "count"
+			vars["len(recv.jobsByPipeline["+P+"])"] = "njobs"
+		}
+	}
+	// side conditions: one definition, and it is the one of the pipeline argument
+	if len(defBases) != 1 {
+		var bs []string
+		for b := range defBases {
+			bs = append(bs, b)
+		}
+		sort.Strings(bs)
+		return vars, "the admission function reads definition fields of " + strings.Join(bs, ", ") + " (expected exactly one definition)"
+	}
+	for b := range defBases {
+		if b == "recv.defs.Pipelines["+P+"]" {
+			continue
+		}
+		// a definition parameter: every call site passes the definition of the pipeline it asks about
+		okAll, n := true, 0
+		for i, prm := range ro.Admit.Params {
+			ap := w.AP(prm)
+			if ap != b {
+				continue
+			}
+			pIdx := -1
+			for j, q := range ro.Admit.Params {
+				if w.AP(q) == P {
+					pIdx = j
+				}
+			}
+			for _, l := range w.argOrigins(ro.Admit, i, 0) {
+				n++
+				def := w.AP(l.v)
+				pl := ""
+				if pIdx >= 0 && pIdx < len(l.in.Common().Args) {
+					pl = w.AP(l.in.Common().Args[pIdx])
+				}
+				// rendered in the caller: its own receiver is "recv" too (methods of the runner)
+				if def != "recv.defs.Pipelines["+pl+"]" && !strings.HasPrefix(def, "recv.defs.Pipelines["+pl+"]") {
+					okAll = false
+				}
+			}
+		}
+		if !okAll || n == 0 {
+			return vars, "the admission function decides on the definition " + b + ", which is not (at every call) the current definition of the pipeline it is asked about"
+		}
+	}
+	return vars, ""
+}
+
+// inlinedCounter: the loop-carried counter of a counting loop inside the admission function
+// (value compared with the definition's Concurrency).
+func (ro *Roles) inlinedCounter() *ssa.Phi {
+	w := ro.w
+	var out *ssa.Phi
+	allInstrs(ro.Admit, func(in ssa.Instruction) {
+		b, ok := in.(*ssa.BinOp)
+		if !ok {
+			return
+		}
+		for _, pair := range [][2]ssa.Value{{b.X, b.Y}, {b.Y, b.X}} {
+			if strings.HasSuffix(w.AP(pair[1]), ".Concurrency") {
+				if ph, ok := w.Resolve(pair[0]).(*ssa.Phi); ok {
+					out = ph
+				}
+			}
+		}
+	})
+	return out
 }
 
 // admitReference is the decision table as stated by the property and the README.
@@ -75,7 +237,7 @@ func admitRows() []admitRow {
 // mode: "equal" (C05: the whole table), "start-implies-free" (C01), "delay-queues" (C07).
 func (ro *Roles) admissionTable(r *Report, rule, mode string) {
 	w := ro.w
-	if !ro.need(r, rule, map[string]*ssa.Function{"admission function": ro.Admit, "counting function": ro.Count}) {
+	if !ro.need(r, rule, map[string]*ssa.Function{"admission function": ro.Admit}) {
 		return
 	}
 	// (helpers of the admission function — named predicates, an extracted queue decision — are spliced in)
@@ -87,26 +249,63 @@ func (ro *Roles) admissionTable(r *Report, rule, mode string) {
 		r.Undecided(rule, key, pos, "path cap exceeded")
 		return
 	}
-	vars := ro.admitVars()
+	vars, vproblem := ro.admitVars(res.Paths)
+	if vproblem != "" {
+		r.Undecided(rule, key, pos, vproblem)
+		return
+	}
+	inlinedCount := ro.Count == nil
 	bad, n := 0, 0
 	first := ""
 	for _, row := range admitRows() {
-		env := map[string]int64{"count": row.count, "conc": row.conc, "delay": row.delay, "ignore": row.ignore, "strategy": row.strategy, "len": row.length, "limitptr": 1, "limit": row.limit}
+		env := map[string]int64{"count": row.count, "njobs": row.count, "conc": row.conc, "delay": row.delay, "ignore": row.ignore, "strategy": row.strategy, "len": row.length, "limitptr": 1, "limit": row.limit}
 		if row.limitNil {
 			env["limitptr"] = 0
 			delete(env, "limit")
 		}
 		n++
-		p, why := selectPath(res.Paths, vars, env)
-		if p == nil {
-			r.Undecided(rule, key, pos, "cannot evaluate the admission function on "+row.String()+": "+why)
-			return
-		}
+		var p *Path
 		got := "?"
-		if len(p.Ret) == 1 {
-			var v int64
-			if _, err := fmt.Sscan(p.Ret[0], &v); err == nil {
-				got = ro.ActionName[v]
+		if !inlinedCount {
+			var why string
+			p, why = selectPath(res.Paths, vars, env)
+			if p == nil {
+				r.Undecided(rule, key, pos, "cannot evaluate the admission function on "+row.String()+": "+why)
+				return
+			}
+			if len(p.Ret) == 1 {
+				var v int64
+				if _, err := fmt.Sscan(p.Ret[0], &v); err == nil {
+					got = ro.ActionName[v]
+				}
+			}
+		} else {
+			// the counting loop is part of the function: its branches are unconstrained, every
+			// consistent path must give the same decision
+			sel, problem := selectPaths(res.Paths, vars, env, true)
+			if problem != "" || len(sel) == 0 {
+				r.Undecided(rule, key, pos, "cannot evaluate the admission function on "+row.String()+": "+problem)
+				return
+			}
+			for _, pe := range sel {
+				if pe.Path.End != "return" || len(pe.Path.Ret) != 1 {
+					continue
+				}
+				g := "?"
+				var v int64
+				if _, err := fmt.Sscan(pe.Path.Ret[0], &v); err == nil {
+					g = ro.ActionName[v]
+				}
+				if p != nil && g != got {
+					got = "?(" + got + "/" + g + ")"
+				} else if p == nil {
+					got = g
+				}
+				p = pe.Path
+			}
+			if p == nil {
+				r.Undecided(rule, key, pos, "no returning path for "+row.String())
+				return
 			}
 		}
 		want := ro.admitReference(row)
@@ -189,29 +388,32 @@ func (ro *Roles) runPredTable(r *Report, rule string, equality bool) map[[3]int6
 // argument and increments whenever the running predicate holds.
 func (ro *Roles) countShape(r *Report, rule string) {
 	w := ro.w
-	if !ro.need(r, rule, map[string]*ssa.Function{"counting function": ro.Count, "running predicate": ro.RunPred}) {
+	if !ro.need(r, rule, map[string]*ssa.Function{"running predicate": ro.RunPred, "admission function": ro.Admit}) {
 		return
 	}
-	fn := ro.Count
+	fn, list := ro.countHost()
+	if fn == nil {
+		r.Undecided(rule, "counting loop", "-", "neither a counting function nor a counting loop in the admission function")
+		return
+	}
 	key := FuncName(fn) + ": counts every running job of the pipeline"
 	pos := w.Pos(fn.Pos())
-	res := w.EnumPaths(fn, EnumOpts{Inline: true, Opaque: w.statelessCallee})
-	r.Count("paths", len(res.Paths))
 	// the list iterated
 	listOK, incOK, noOtherBranch := false, false, true
-	for _, f := range w.ifFacts(fn) {
+	facts := w.ifFacts(fn)
+	for _, f := range facts {
 		a := f.Atom
-		if a.Op == "true" && strings.HasPrefix(a.L, FuncName(ro.RunPred)+"(recv.jobsByPipeline[arg0][") {
+		if a.Op == "true" && strings.HasPrefix(a.L, FuncName(ro.RunPred)+"("+list+"[") {
 			listOK = true
-			// the true edge increments the returned counter
+			// the true edge increments the counter
 			blk := f.If.Block().Succs[f.SuccTrue]
 			for _, in := range blk.Instrs {
 				if b, ok := in.(*ssa.BinOp); ok && b.Op == token.ADD && isConstInt(b.Y, 1) {
 					// ... and the loop goes on: no return is reachable from here without
 					// passing the loop condition again
 					var loopIf ssa.Instruction
-					for _, g := range w.ifFacts(fn) {
-						if g.Atom.Op == "<" && strings.Contains(g.Atom.R, "len(recv.jobsByPipeline[arg0])") {
+					for _, g := range facts {
+						if g.Atom.Op == "<" && strings.Contains(g.Atom.R, "len("+list+")") {
 							loopIf = g.If
 						}
 					}
@@ -219,21 +421,37 @@ func (ro *Roles) countShape(r *Report, rule string) {
 					incOK = loopIf != nil && !esc.Found
 				}
 			}
-		} else if a.Op == "<" && strings.Contains(a.R, "len(recv.jobsByPipeline[arg0])") {
+		} else if a.Op == "<" && strings.Contains(a.R, "len("+list+")") {
 			// the loop condition
-		} else {
+		} else if fn == ro.Count {
 			noOtherBranch = false
 		}
 	}
-	// the result is the counter phi (not a constant)
+	// the result is the counter phi (not a constant), and a slice parameter is the pipeline's list at the call
 	retOK := true
-	allInstrs(fn, func(in ssa.Instruction) {
-		if rt, ok := in.(*ssa.Return); ok {
-			if _, isC := rt.Results[0].(*ssa.Const); isC {
-				retOK = false
+	if fn == ro.Count {
+		allInstrs(fn, func(in ssa.Instruction) {
+			if rt, ok := in.(*ssa.Return); ok {
+				if _, isC := rt.Results[0].(*ssa.Const); isC {
+					retOK = false
+				}
+			}
+		})
+		if strings.HasPrefix(list, "arg") {
+			P := ro.admitPipelineArg()
+			for _, ci := range findCalls(ro.Admit, func(_ string, c *ssa.CallCommon) bool { return c.StaticCallee() == fn }) {
+				okArg := false
+				for _, a := range ci.Common().Args {
+					if w.AP(a) == "recv.jobsByPipeline["+P+"]" {
+						okArg = true
+					}
+				}
+				listOK = listOK && okArg
 			}
 		}
-	})
+	} else {
+		retOK = ro.inlinedCounter() != nil
+	}
 	r.Check(listOK && incOK && noOtherBranch && retOK, rule, key, pos,
 		"ranges over jobsByPipeline[pipeline argument] and adds 1 exactly when the running predicate holds; no other branch, result is the counter",
 		fmt.Sprintf("counting function shape not recognised or wrong (iterates the pipeline's list with the running predicate=%v, increments on it=%v, no other branch=%v, returns the counter=%v): running jobs can be under-counted", listOK, incOK, noOtherBranch, retOK))
